@@ -307,6 +307,30 @@ def _wire_vars(ctx, f, fam):
     return wire
 
 
+def _raw_vars(ctx, f, fam):
+    """Local names holding raw octets: items of stream reads and of collecting (`substrateFun=`) decodes, and
+    values accumulated from them."""
+    rfs = ctx.func('codec.streaming.readFromStream')
+    raw = set()
+    for g, lp, ps in fam.loops:
+        if g is f and isinstance(lp.target, ast.Name):
+            if rfs in ps or (isinstance(lp.iter, ast.Call) and any(k.arg == 'substrateFun' for k in lp.iter.keywords)):
+                raw.add(lp.target.id)
+    changed = True
+    while changed:
+        changed = False
+        for n in walk_own(f.node):
+            tgt = None
+            if isinstance(n, ast.Assign) and len(n.targets) == 1 and isinstance(n.targets[0], ast.Name):
+                tgt, val = n.targets[0].id, n.value
+            elif isinstance(n, ast.AugAssign) and isinstance(n.target, ast.Name):
+                tgt, val = n.target.id, n.value
+            if tgt and tgt not in raw and names_used(val) & raw and not isinstance(val, ast.Call):
+                raw.add(tgt)
+                changed = True
+    return raw
+
+
 def _sized_read(ctx, f, fam, var, cfg):
     """If `var` is the loop variable of `readFromStream(substrate, <size>, ...)` return the size expression."""
     rfs = ctx.func('codec.streaming.readFromStream')
@@ -525,6 +549,47 @@ def rule_nonevalue(ctx):
                 ctx.ob('A13.value', f, 'yield None', False, 'yields None as a result', node=y)
             else:
                 ctx.ob('A13.value', f, 'yield %s' % norm(v)[:60], True, 'constructed value', node=y, nontrivial=False)
+    # A13.raw: a payload decoder hands raw wire octets back only when the CALLER asked for them (substrateFun)
+    root = ctx.cls('codec.ber.decoder.AbstractSimplePayloadDecoder')
+    nraw = 0
+    for f in sorted(fam.members, key=lambda f: f.qualname):
+        if f.cls is None or root not in f.cls.mro or f.name not in ('valueDecoder', 'indefLenValueDecoder'):
+            continue
+        wire = _raw_vars(ctx, f, fam)
+        cfg = ctx.cfg(f)
+        rd = reaching_defs(cfg, f.params())
+        for y in G.yields_of(f, 'off'):
+            v = y.value
+            if not (isinstance(v, ast.Name) and v.id in wire):
+                continue
+            ks = G.yield_kinds(ctx, fam, f, y, fam.members)
+            if 'D' not in ks:
+                continue
+            # forwarding the items of a substrateFun call is the caller's raw mode
+            fwd = [lp for lp in G.enclosing_loops(y, f.node) if isinstance(lp, ast.For) and isinstance(lp.target, ast.Name)
+                   and lp.target.id == v.id and isinstance(lp.iter, ast.Call) and norm(lp.iter.func) == 'substrateFun']
+            if fwd:
+                continue
+            nraw += 1
+            node = cfg.node_of[G._stmt_of(y, f.node)]
+            ok = False
+            why = 'raw octets `%s` are yielded as the decoded result' % v.id
+            for b, lab in cfg.control_deps(node):
+                if b.kind != 'test' or lab != 'true':
+                    continue
+                for nm in names_used(b.ast.test):
+                    defs = rd[b].get(nm, set())
+                    if nm == 'substrateFun' and defs == {cfg.entry}:
+                        ok, why = True, 'raw mode selected by the caller-supplied substrateFun'
+                    elif defs and all(d.kind == 'stmt' and isinstance(d.ast, ast.Assign) and
+                                      'substrateFun' in names_used(d.ast.value) and
+                                      rd[d].get('substrateFun', set()) == {cfg.entry} for d in defs):
+                        ok, why = True, 'raw mode selected by `%s`, derived from the caller-supplied substrateFun' % nm
+            if not ok:
+                why += (': the guard does not test the substrateFun the caller passed in (it was overwritten locally), '
+                        'so callers that did not ask for raw octets get bytes instead of an ASN.1 object')
+            ctx.ob('A13.raw', f, 'yield %s' % v.id, ok, why, node=y)
+    ctx.ob('A13.raw', 'codec.ber.decoder', 'raw-octet result yields enumerated', True, '%d site(s)' % nraw, nontrivial=False)
     # _createComponent never returns None
     for q in ('codec.ber.decoder.AbstractSimplePayloadDecoder._createComponent',):
         f = ctx.func(q)
